@@ -231,6 +231,74 @@ def i128(x: int128, y: int128) -> int128:
 
 @external
 @pure
+def narrow_u8(x: uint8) -> uint256:
+    r: uint256 = 0
+    if 5 < x:
+        r += 1
+    else:
+        if x >= 5:
+            r += 100
+        if x > 4:
+            r += 1000
+    if 200 > x:
+        r += 10000
+    else:
+        if x <= 200:
+            r += 100000
+        if x < 201:
+            r += 1000000
+    return r
+
+@external
+@pure
+def narrow_i8(x: int8) -> uint256:
+    r: uint256 = 0
+    if -3 < x:
+        r += 1
+    else:
+        if x > -4:
+            r += 100
+    if 3 > x:
+        r += 1000
+    else:
+        if x < 4:
+            r += 10000
+    return r
+
+@external
+@pure
+def narrow_i128(x: int128) -> uint256:
+    r: uint256 = 0
+    if 1000 < x:
+        r += 1
+    else:
+        if x >= 1000:
+            r += 10
+    if -1000 > x:
+        r += 100
+    else:
+        if x <= -1000:
+            r += 1000
+    return r
+
+@external
+@pure
+def narrow_assert(x: uint8) -> uint256:
+    if 5 < x:
+        return 1
+    assert x < 5, "five"
+    return 2
+
+@external
+@pure
+def narrow_assert2(x: int128) -> uint256:
+    if 7 > x:
+        return 1
+    assert x > 7
+    return 2
+
+@external
+@pure
 def u256(x: uint256) -> uint256:
     r: uint256 = 0
     if 1 > x:
